@@ -384,6 +384,8 @@ def run_workload(ctx, res, stats, wl, points=None):
         if k['fatal'] or not k['killed']:
             res.violations.append(fw.Violation('child_failed', 'child of %s kill %d: %r' % (wl['name'], kn, k['fatal']), case))
             continue
+        if kind == 'cache' and not ctx.search_mode:
+            crash_term(wl, kn, k, d)
         viol, info = inspect(d, kind, wl, k, clock)
         viol = classify(viol, wl, k)
         KILL_RECORDS.append({'workload': wl['name'], 'kind': kind, 'setup': wl['setup'], 'program': wl['program'], 'kill_n': kn,
@@ -577,6 +579,43 @@ def new_stats():
             'by_sig': {}, 'event_kinds': Counter()}
 
 
+CRASH_TERMS = []        # (workload name, kill_n, term, info): see crash_term
+
+
+def crash_term(wl, kn, k, d):
+    """Crash correspondence (coq/model/ConcRun.v crash_check): the machine with the real transaction bodies follows the
+    events the child executed, is crashed where the child was killed, and must then have the committed rows, counters
+    and files (partial and unreferenced ones included) found in the directory, and the outcomes of the finished calls."""
+    import schedcorr
+    import seqdrv
+    if any(c['op'] in concdrv.BLOCK_OPS for c in wl['program']) or not schedcorr.supported([wl['program']], wl['setup']):
+        return
+    try:
+        obs = seqdrv.observe(d)
+    except Exception:  # noqa  (an unreadable database is reported by inspect)
+        return
+    term, info = schedcorr.build_crash(k, wl['program'], wl['setup'], wl['settings'], obs, now=c05.NOW, setup_now=SETUP_NOW)
+    if term is not None:
+        CRASH_TERMS.append((wl['name'], kn, term, info, {'check': 'kill', 'workload': wl, 'kill_n': kn}))
+
+
+def crash_correspondence(ctx, res):
+    import schedcorr
+    if not CRASH_TERMS:
+        return
+    codes, errors = schedcorr.evaluate('c07cr', [t[2] for t in CRASH_TERMS])
+    for e in errors[:2]:
+        res.disagreements.append(fw.Violation('model-eval', 'crash correspondence could not be evaluated: ' + e[-300:], {}, 'correspondence'))
+    bad = [i for i, c in enumerate(codes) if c != -1]
+    res.traces_validated += len(CRASH_TERMS) - len(bad)
+    res.extra['crash_correspondence'] = {'kill_points_compared_with_the_machine': len(CRASH_TERMS), 'agree': len(CRASH_TERMS) - len(bad),
+                                         'workloads': sorted(set(t[0] for t in CRASH_TERMS))}
+    for i in bad[:3]:
+        name, kn, _, info, case = CRASH_TERMS[i]
+        res.disagreements.append(fw.Violation('crash_correspondence', 'machine and implementation differ after a kill (workload %s, killed before event %d): %s'
+                                              % (name, kn, schedcorr.explain(codes[i], info)), dict(case, code=codes[i], events=info['events']), 'correspondence'))
+
+
 def correspondence(ctx, res, kill_records):
     """Trace correspondence for interrupted calls: the events the killed client executed since the start of the call
     (or of the open transaction block) it was in must be a PREFIX of a path of the stage automaton of
@@ -626,6 +665,7 @@ def correspondence(ctx, res, kill_records):
 def run(ctx, big=False):
     res = fw.Result()
     del KILL_RECORDS[:]
+    del CRASH_TERMS[:]
     res.rule = ('workloads = every mutating Cache method (set/setitem/add/incr/decr/touch/pop/delete/delitem/push/pull/peek/peekitem/clear/evict/'
                 'expire/cull, lazy cull by a write) x {inline, file-backed, inline<->file} x {plain, inside a transact block}, bulk removals over '
                 '3 pages, Deque and Index operations; each workload = [a finished call, the call under test, a later call]; the child is killed '
@@ -669,6 +709,7 @@ def run(ctx, big=False):
     res.extra_private = {'kill_records': KILL_RECORDS}
     if not ctx.search_mode:
         correspondence(ctx, res, KILL_RECORDS)
+        crash_correspondence(ctx, res)
     return res
 
 
